@@ -225,3 +225,57 @@ def random_hierarchy(rng, max_classes=8, max_bases=3, last_ok=None):
   for i in range(n):
     cl[i]["attrs"] = attrs[i]
   return {"classes": cl, "style": style}
+
+
+# --------------------------------------------------------------------------
+# targeted slice: shapes in which the C3 head choice depends on going back to an
+# earlier sequence (5-6 classes, 2-3 roots, a last class with 2-3 bases)
+
+
+def targeted_prefixes(n_classes, legal):
+  """Base lists of classes 0..n-2: the first 2 or 3 are roots, every later one has 1 or 2
+  distinct bases (ordered) among the earlier classes; only prefixes CPython creates."""
+  npre = n_classes - 1
+  out = []
+
+  def rec(prefix):
+    k = len(prefix)
+    if k == npre:
+      out.append(prefix)
+      return
+    for m in (1, 2):
+      for t in itertools.permutations(range(k), m):
+        cand = prefix + [list(t)]
+        if legal(cand):
+          rec(cand)
+  for roots in (2, 3):
+    if roots <= npre - 1:
+      rec([[] for _ in range(roots)])
+  return out
+
+
+def targeted_leaves(n_prefix):
+  """Every ordered selection of 2 or 3 distinct prefix classes as the last class's bases."""
+  return [list(t) for m in (2, 3) for t in itertools.permutations(range(n_prefix), m)]
+
+
+def pair_attr_hierarchy(prefix, leaves):
+  """Prefix classes + sibling leaves.  For every pair {x, y} of prefix classes there is an
+  attribute defined in exactly x and y (distinct marker types), so reading all pair
+  attributes through a leaf reveals the relative order of any two of its ancestors.
+  Leaves define nothing.  Only `C.attr` probes are generated (class_probes_only)."""
+  n = len(prefix)
+  attrs = [[] for _ in range(n)]
+  j = 10
+  for x in range(n):
+    for y in range(x + 1, n):
+      attrs[x].append(j)
+      attrs[y].append(j)
+      j += 1
+  cl = [{"bases": bl, "attrs": attrs[i]} for i, bl in enumerate(prefix)]
+  cl += [{"bases": bl, "attrs": []} for bl in leaves]
+  return {"classes": cl, "class_probes_only": True, "probe_from": n}
+
+
+def bare_hierarchy(prefix, leaves):
+  return {"classes": [{"bases": bl, "attrs": []} for bl in prefix + leaves]}
